@@ -566,6 +566,12 @@ func genRecv(g *lp.Gen) {
 	if g.Chance(1, 5) {
 		g.P("X %d %s", g.PickInt(9, 10, 8, 9, 1, 2), specOf(randBytes(g, g.PickInt(0, 5, 125, 126, 127, 1000))))
 	}
+	if g.Chance(1, 6) { // the other public send entry points
+		if g.Chance(1, 2) {
+			g.P("XF %d %d %d %s", g.PickInt(9, 10, 8, 9, 1, 2, 0), g.PickInt(1, 1, 0), g.PickInt(1, 1, 0), specOf(randBytes(g, g.PickInt(0, 5, 124, 125, 126, 127, 300))))
+		}
+		g.P("XC %d %s", g.PickInt(1000, 1001, 1002, 1009, 1011, 3000, 4999), specOf(utf8Text(g, g.PickInt(0, 1, 122, 123, 124, 125, 126, 200))))
+	}
 	g.P("E")
 }
 
@@ -673,6 +679,37 @@ func genRTQ(g *lp.Gen) {
 			}
 		}
 		g.P("B %s %s", g.Pick("c", "s"), strings.Join(ms, ";"))
+	}
+}
+
+// genRTS: asynchronous writes through a bounded send queue while the peer is slow (the sender's conn is gated during a
+// batch): messages that fill the queue exactly, incompressible payloads just below a multiple of the frame size (they
+// compress to one frame more), messages that must be refused as a whole.
+func genRTS(g *lp.Gen) {
+	comp := g.Chance(3, 4)
+	mf := g.PickInt(125, 126, 1000, 64)
+	n := g.PickInt(2, 3, 4, 5, 6, 8)
+	side := g.Pick("c", "s")
+	g.P("C rt compress=%d level=%d limit=0 maxframe=%d seg=%s seed=%d sendq=%d from=%s", b2i(comp), g.PickInt(1, 6, 9), mf,
+		g.Pick("whole", "rand", "small"), g.Intn(1<<30), n, side)
+	nb := 1 + g.Intn(3)
+	for b := 0; b < nb; b++ {
+		var ms []string
+		k := 1 + g.Intn(n)
+		fill := n - k - g.PickInt(0, 0, 0, 1)
+		for i := 0; i < fill; i++ {
+			ms = append(ms, g.Pick("text/", "binary/")+specOf(utf8Text(g, g.PickInt(0, 1, 20, mf-20))))
+		}
+		// the critical message: k frames before compression, possibly k+1 after
+		ln := k*mf - g.PickInt(0, 1, 2, 3, 5, 8, 12, mf/2)
+		if ln < 0 {
+			ln = 0
+		}
+		ms = append(ms, "binary/"+specOf(randBytes(g, ln)))
+		for i := 0; i < g.Intn(3); i++ {
+			ms = append(ms, g.Pick("text/", "binary/")+specOf(utf8Text(g, g.PickInt(0, 5, mf, mf+1))))
+		}
+		g.P("B %s %s", side, strings.Join(ms, ";"))
 	}
 }
 
@@ -1009,8 +1046,10 @@ func gen(g *lp.Gen) {
 			genUp(g)
 		case x < 90:
 			genRT(g)
-		case x < 97:
+		case x < 94:
 			genRTQ(g)
+		case x < 97:
+			genRTS(g)
 		default:
 			genMask(g, false)
 		}
